@@ -400,77 +400,24 @@ Qed.
 Lemma skipn_app_exact {A} (t rest : list A) : skipn (length t) (t ++ rest) = rest.
 Proof. induction t as [|c t IH]; [reflexivity|exact IH]. Qed.
 
-(** * The container loops of [value_l], named *)
-Definition elems_g (pv : bytes -> option (node * bytes)) :=
-  fix elems (k : nat) (l0 : bytes) (acc : list node) : option (node * bytes) :=
-    match k with
-    | O => None
-    | S k' =>
-        match pv (drop_ws l0) with
-        | None => None
-        | Some (v, r2) =>
-            match drop_ws r2 with
-            | c2 :: r3 =>
-                if c2 =? 44 then elems k' r3 (v :: acc)
-                else if c2 =? 93 then Some (Node c_cJSON_Array None 0 dzero None (rev (v :: acc)), r3)
-                else None
-            | [] => None
-            end
-        end
-    end.
-
-Definition members_g (pv : bytes -> option (node * bytes)) :=
-  fix members (k : nat) (l0 : bytes) (acc : list node) : option (node * bytes) :=
-    match k with
-    | O => None
-    | S k' =>
-        match drop_ws l0 with
-        | q :: rq =>
-            if negb (q =? 34) then None
-            else
-              match string_l rq with
-              | None => None
-              | Some (key, r2) =>
-                  match drop_ws r2 with
-                  | col :: r3 =>
-                      if negb (col =? 58) then None
-                      else
-                        match pv (drop_ws r3) with
-                        | None => None
-                        | Some (v0, r4) =>
-                            let v := with_key key v0 in
-                            match drop_ws r4 with
-                            | c2 :: r5 =>
-                                if c2 =? 44 then members k' r5 (v :: acc)
-                                else if c2 =? 125 then Some (Node c_cJSON_Object None 0 dzero None (rev (v :: acc)), r5)
-                                else None
-                            | [] => None
-                            end
-                        end
-                  | [] => None
-                  end
-              end
-        | [] => None
-        end
-    end.
-
-Lemma elems_g_S pv k l0 acc :
-  elems_g pv (S k) l0 acc =
+(** * Unfolding lemmas for the container loops and [value_l] *)
+Lemma elems_l_S pv k l0 acc :
+  elems_l pv (S k) l0 acc =
   match pv (drop_ws l0) with
   | None => None
   | Some (v, r2) =>
       match drop_ws r2 with
       | c2 :: r3 =>
-          if c2 =? 44 then elems_g pv k r3 (v :: acc)
-          else if c2 =? 93 then Some (Node c_cJSON_Array None 0 dzero None (rev (v :: acc)), r3)
+          if c2 =? 44 then elems_l pv k r3 (v :: acc)
+          else if c2 =? 93 then Some (rev (v :: acc), r3)
           else None
       | [] => None
       end
   end.
 Proof. reflexivity. Qed.
 
-Lemma members_g_S pv k l0 acc :
-  members_g pv (S k) l0 acc =
+Lemma members_l_S pv k l0 acc :
+  members_l pv (S k) l0 acc =
   match drop_ws l0 with
   | q :: rq =>
       if negb (q =? 34) then None
@@ -487,8 +434,8 @@ Lemma members_g_S pv k l0 acc :
                   | Some (v0, r4) =>
                       match drop_ws r4 with
                       | c2 :: r5 =>
-                          if c2 =? 44 then members_g pv k r5 (with_key key v0 :: acc)
-                          else if c2 =? 125 then Some (Node c_cJSON_Object None 0 dzero None (rev (with_key key v0 :: acc)), r5)
+                          if c2 =? 44 then members_l pv k r5 (with_key key v0 :: acc)
+                          else if c2 =? 125 then Some (rev (with_key key v0 :: acc), r5)
                           else None
                       | [] => None
                       end
@@ -500,11 +447,11 @@ Lemma members_g_S pv k l0 acc :
   end.
 Proof. reflexivity. Qed.
 
-Lemma elems_g_drop pv k l0 acc : elems_g pv k (drop_ws l0) acc = elems_g pv k l0 acc.
-Proof. destruct k as [|k]; [reflexivity|]. rewrite !elems_g_S, drop_ws_idem. reflexivity. Qed.
+Lemma elems_l_drop pv k l0 acc : elems_l pv k (drop_ws l0) acc = elems_l pv k l0 acc.
+Proof. destruct k as [|k]; [reflexivity|]. rewrite !elems_l_S, drop_ws_idem. reflexivity. Qed.
 
-Lemma members_g_drop pv k l0 acc : members_g pv k (drop_ws l0) acc = members_g pv k l0 acc.
-Proof. destruct k as [|k]; [reflexivity|]. rewrite !members_g_S, drop_ws_idem. reflexivity. Qed.
+Lemma members_l_drop pv k l0 acc : members_l pv k (drop_ws l0) acc = members_l pv k l0 acc.
+Proof. destruct k as [|k]; [reflexivity|]. rewrite !members_l_S, drop_ws_idem. reflexivity. Qed.
 
 Section ValueCases.
   Variable strtod : bytes -> option (dbl * nat).
@@ -535,23 +482,11 @@ Section ValueCases.
   Qed.
   Lemma value_l_arr f depth r :
     value_l strtod (S f) depth (91 :: r) =
-    if c_CJSON_NESTING_LIMIT <=? depth then None
-    else match drop_ws r with
-         | [] => None
-         | c1 :: r1 =>
-             if c1 =? 93 then Some (Node c_cJSON_Array None 0 dzero None [], r1)
-             else elems_g (value_l strtod f (depth + 1)) (S (length (91 :: r))) (c1 :: r1) []
-         end.
+    if c_CJSON_NESTING_LIMIT <=? depth then None else array_l (value_l strtod f (depth + 1)) r.
   Proof. reflexivity. Qed.
   Lemma value_l_obj f depth r :
     value_l strtod (S f) depth (123 :: r) =
-    if c_CJSON_NESTING_LIMIT <=? depth then None
-    else match drop_ws r with
-         | [] => None
-         | c1 :: r1 =>
-             if c1 =? 125 then Some (Node c_cJSON_Object None 0 dzero None [], r1)
-             else members_g (value_l strtod f (depth + 1)) (S (length (123 :: r))) (c1 :: r1) []
-         end.
+    if c_CJSON_NESTING_LIMIT <=? depth then None else object_l (value_l strtod f (depth + 1)) r.
   Proof. reflexivity. Qed.
 End ValueCases.
 
@@ -571,6 +506,9 @@ Proof.
   cbn [app]. apply drop_ws_start. apply value_start_gt. exact Hc.
 Qed.
 
+Ltac lens := repeat (progress (rewrite ?app_length in *; cbn [length] in * )); lia.
+Ltac norm_app := repeat (rewrite <- app_assoc || rewrite <- app_comm_cons).
+
 Section Complete.
   Variable strtod : bytes -> option (dbl * nat).
   Hypothesis strtod_contract : strtod_rfc strtod.
@@ -585,3 +523,378 @@ Section Complete.
     destruct (strtod_contract t Hn Hlen) as [d Hd].
     cbn [tree_of]. rewrite Hd. rewrite skipn_app_exact. reflexivity.
   Qed.
+
+  (** ** Values, elements, members: the mutual induction *)
+  Notation arr_children l := (n_children (tree_of strtod (JArr l))).
+  Notation obj_children m := (n_children (tree_of strtod (JObj m))).
+
+  Definition P_value (d : nat) (t : bytes) (v : jv) : Prop :=
+    jv_ok v -> forall f depth rest,
+      (length t < f)%nat -> depth + Z.of_nat d <= c_CJSON_NESTING_LIMIT -> nonnum_start rest ->
+      value_l strtod f depth (t ++ rest) = Some (tree_of strtod v, rest).
+
+  Definition P_elems (d : nat) (b : bytes) (l : list jv) : Prop :=
+    jv_ok (JArr l) -> forall f depth k acc rest,
+      (length b < f)%nat -> (length b < k)%nat -> depth + Z.of_nat d <= c_CJSON_NESTING_LIMIT ->
+      elems_l (value_l strtod f depth) k (b ++ 93 :: rest) acc = Some (rev acc ++ arr_children l, rest).
+
+  Definition P_membs (d : nat) (b : bytes) (m : list (bytes * jv)) : Prop :=
+    jv_ok (JObj m) -> forall f depth k acc rest,
+      (length b < f)%nat -> (length b < k)%nat -> depth + Z.of_nat d <= c_CJSON_NESTING_LIMIT ->
+      members_l (value_l strtod f depth) k (b ++ 125 :: rest) acc = Some (rev acc ++ obj_children m, rest).
+
+  Lemma elements_start d b l : elements rfc_ws rfc_raw rfc_num_tok d b l ->
+    exists w1 c b', b = w1 ++ c :: b' /\ ws rfc_ws w1 /\ value_start c.
+  Proof.
+    destruct 1 as [d w1 t v w2 Hw1 Hv Hw2|d w1 t v w2 b l Hw1 Hv Hw2 He];
+      destruct (value_starts d t v Hv) as [c [t' [-> Hc]]];
+      exists w1, c; eexists; (split; [cbn [app]; reflexivity|]); split; assumption.
+  Qed.
+
+  Lemma members_start d b m : members rfc_ws rfc_raw rfc_num_tok d b m ->
+    exists w1 b', b = w1 ++ 34 :: b' /\ ws rfc_ws w1.
+  Proof.
+    destruct 1; eexists; eexists; (split; [reflexivity|]); assumption.
+  Qed.
+
+
+
+  Lemma with_key_set_key k n : with_key k n = set_key k n.
+  Proof. destruct n; reflexivity. Qed.
+
+  Theorem grammar_complete :
+    (forall d t v, RFC_value d t v -> P_value d t v) /\
+    (forall d b l, elements rfc_ws rfc_raw rfc_num_tok d b l -> P_elems d b l) /\
+    (forall d b m, members rfc_ws rfc_raw rfc_num_tok d b m -> P_membs d b m).
+  Proof.
+    apply (grammar_mutind rfc_ws rfc_raw rfc_num_tok
+             (fun d t v _ => P_value d t v) (fun d b l _ => P_elems d b l) (fun d b m _ => P_membs d b m)).
+    - (* null *) intros d _ f depth rest Hf _ _. destruct f as [|f]; [lens|]. reflexivity.
+    - (* false *) intros d _ f depth rest Hf _ _. destruct f as [|f]; [lens|]. reflexivity.
+    - (* true *) intros d _ f depth rest Hf _ _. destruct f as [|f]; [lens|]. reflexivity.
+    - (* number *) intros d t Hn Hok f depth rest Hf _ Hrest. destruct f as [|f]; [lens|].
+      destruct (rfc_number_first t Hn) as [c [r [E Hc]]].
+      rewrite E at 1. cbn [app]. rewrite value_l_num by exact Hc.
+      change (c :: r ++ rest) with ((c :: r) ++ rest). rewrite <- E.
+      apply number_l_complete; assumption.
+    - (* string *) intros d b s Hc _ f depth rest Hf _ _. destruct f as [|f]; [lens|].
+      cbn [app]. rewrite <- app_assoc. cbn [app].
+      rewrite value_l_str, (chars_string_l b s rest Hc). reflexivity.
+    - (* [] *) intros d w Hw _ f depth rest Hf Hd _. destruct f as [|f]; [lens|].
+      cbn [app]. rewrite <- app_assoc. cbn [app]. rewrite value_l_arr.
+      destruct (Z.leb_spec c_CJSON_NESTING_LIMIT depth); [lia|].
+      unfold array_l. rewrite drop_ws_app by exact Hw. rewrite drop_ws_start by lia.
+      reflexivity.
+    - (* [elements] *) intros d b l He IH Hok f depth rest Hf Hd _. destruct f as [|f]; [lens|].
+      cbn [app]. rewrite <- app_assoc. cbn [app]. rewrite value_l_arr.
+      destruct (Z.leb_spec c_CJSON_NESTING_LIMIT depth); [lia|].
+      destruct (elements_start d b l He) as [w1 [c [b' [E [Hw1 Hc]]]]].
+      assert (E2 : drop_ws (b ++ 93 :: rest) = c :: b' ++ 93 :: rest).
+      { rewrite E, <- app_assoc. cbn [app]. rewrite drop_ws_app by exact Hw1.
+        apply drop_ws_start. apply value_start_gt. exact Hc. }
+      unfold array_l. rewrite E2.
+      destruct (Z.eqb_spec c 93); [unfold value_start in Hc; lia|].
+      rewrite <- E2, elems_l_drop.
+      rewrite (IH Hok f (depth + 1) _ [] rest); [reflexivity|lens|lens|lia].
+    - (* {} *) intros d w Hw _ f depth rest Hf Hd _. destruct f as [|f]; [lens|].
+      cbn [app]. rewrite <- app_assoc. cbn [app]. rewrite value_l_obj.
+      destruct (Z.leb_spec c_CJSON_NESTING_LIMIT depth); [lia|].
+      unfold object_l. rewrite drop_ws_app by exact Hw. rewrite drop_ws_start by lia.
+      reflexivity.
+    - (* {members} *) intros d b m Hm IH Hok f depth rest Hf Hd _. destruct f as [|f]; [lens|].
+      cbn [app]. rewrite <- app_assoc. cbn [app]. rewrite value_l_obj.
+      destruct (Z.leb_spec c_CJSON_NESTING_LIMIT depth); [lia|].
+      destruct (members_start d b m Hm) as [w1 [b' [E Hw1]]].
+      assert (E2 : drop_ws (b ++ 125 :: rest) = 34 :: b' ++ 125 :: rest).
+      { rewrite E, <- app_assoc. cbn [app]. rewrite drop_ws_app by exact Hw1.
+        apply drop_ws_start. lia. }
+      unfold object_l. rewrite E2. change (34 =? 125) with false. cbv iota.
+      rewrite <- E2, members_l_drop.
+      rewrite (IH Hok f (depth + 1) _ [] rest); [reflexivity|lens|lens|lia].
+    - (* one element *) intros d w1 t v w2 Hw1 Hv IHv Hw2 Hok f depth k acc rest Hf Hk Hd.
+      destruct k as [|k]; [lens|]. rewrite elems_l_S.
+      rewrite <- !app_assoc. rewrite drop_ws_app by exact Hw1.
+      rewrite (drop_ws_value d t v) by exact Hv.
+      destruct Hok as [Hokv _].
+      rewrite (IHv Hokv f depth (w2 ++ 93 :: rest));
+        [|lens|exact Hd|apply nonnum_start_ws; [exact Hw2|apply nonnum_start_byte; lia]].
+      rewrite drop_ws_app by exact Hw2. rewrite drop_ws_start by lia.
+      reflexivity.
+    - (* element, more *) intros d w1 t v w2 b l Hw1 Hv IHv Hw2 He IHe Hok f depth k acc rest Hf Hk Hd.
+      destruct k as [|k]; [lens|]. rewrite elems_l_S.
+      rewrite <- !app_assoc. rewrite drop_ws_app by exact Hw1.
+      rewrite (drop_ws_value d t v) by exact Hv.
+      destruct Hok as [Hokv Hokl].
+      rewrite (IHv Hokv f depth (w2 ++ (44 :: b) ++ 93 :: rest));
+        [|lens|exact Hd|apply nonnum_start_ws; [exact Hw2|apply nonnum_start_byte; lia]].
+      rewrite drop_ws_app by exact Hw2. cbn [app]. rewrite drop_ws_start by lia.
+      change (44 =? 44) with true. cbv iota.
+      rewrite (IHe Hokl f depth k _ rest); [|lens|lens|exact Hd].
+      cbn [rev]. rewrite <- app_assoc. reflexivity.
+    - (* one member *) intros d w1 kb key w2 w3 t v w4 Hw1 Hk Hw2 Hw3 Hv IHv Hw4 Hok f depth k acc rest Hf Hkk Hd.
+      destruct k as [|k]; [lens|]. rewrite members_l_S.
+      norm_app. rewrite drop_ws_app by exact Hw1.
+      rewrite drop_ws_start by lia. change (34 =? 34) with true. cbn [negb].
+      rewrite (chars_string_l kb key _ Hk).
+      rewrite drop_ws_app by exact Hw2. rewrite drop_ws_start by lia.
+      change (58 =? 58) with true. cbn [negb].
+      rewrite drop_ws_app by exact Hw3.
+      rewrite (drop_ws_value d t v) by exact Hv.
+      destruct Hok as [_ [Hokv _]].
+      rewrite (IHv Hokv f depth (w4 ++ 125 :: rest));
+        [|lens|exact Hd|apply nonnum_start_ws; [exact Hw4|apply nonnum_start_byte; lia]].
+      rewrite drop_ws_app by exact Hw4. rewrite drop_ws_start by lia.
+      change (125 =? 44) with false. change (125 =? 125) with true. cbv iota.
+      rewrite with_key_set_key. reflexivity.
+    - (* member, more *) intros d w1 kb key w2 w3 t v w4 b m Hw1 Hk Hw2 Hw3 Hv IHv Hw4 Hm IHm Hok f depth k acc rest Hf Hkk Hd.
+      destruct k as [|k]; [lens|]. rewrite members_l_S.
+      norm_app. rewrite drop_ws_app by exact Hw1.
+      rewrite drop_ws_start by lia. change (34 =? 34) with true. cbn [negb].
+      rewrite (chars_string_l kb key _ Hk).
+      rewrite drop_ws_app by exact Hw2. rewrite drop_ws_start by lia.
+      change (58 =? 58) with true. cbn [negb].
+      rewrite drop_ws_app by exact Hw3.
+      rewrite (drop_ws_value d t v) by exact Hv.
+      destruct Hok as [_ [Hokv Hokm]].
+      rewrite (IHv Hokv f depth (w4 ++ 44 :: b ++ 125 :: rest));
+        [|lens|exact Hd|apply nonnum_start_ws; [exact Hw4|apply nonnum_start_byte; lia]].
+      rewrite drop_ws_app by exact Hw4. rewrite drop_ws_start by lia.
+      change (44 =? 44) with true. cbv iota.
+      rewrite (IHm Hokm f depth k _ rest); [|lens|lens|exact Hd].
+      rewrite with_key_set_key. cbn [rev]. rewrite <- app_assoc. reflexivity.
+  Qed.
+End Complete.
+
+(** * Whole texts *)
+Lemma complete_value strtod : strtod_rfc strtod ->
+  forall d t v, RFC_value d t v -> jv_ok v ->
+  forall f depth rest, (length t < f)%nat -> depth + Z.of_nat d <= c_CJSON_NESTING_LIMIT ->
+    nonnum_start rest ->
+    value_l strtod f depth (t ++ rest) = Some (tree_of strtod v, rest).
+Proof.
+  intros Hs d t v Hv. exact (proj1 (grammar_complete strtod Hs) d t v Hv).
+Qed.
+
+Lemma bom_strip bom w1 c x :
+  bom = [] \/ bom = [239; 187; 191] -> ws rfc_ws w1 -> value_start c ->
+  match starts [239; 187; 191] (bom ++ w1 ++ c :: x) with
+  | Some r => r
+  | None => bom ++ w1 ++ c :: x
+  end = w1 ++ c :: x.
+Proof.
+  intros [-> | ->] Hw Hc; [|reflexivity].
+  cbn [app]. destruct w1 as [|c0 w1].
+  - cbn [app starts]. destruct (Z.eqb_spec c 239); [unfold value_start in Hc; lia|reflexivity].
+  - apply ws_cons in Hw as [Hc0 _]. apply rfc_ws_cases in Hc0.
+    cbn [app starts]. destruct (Z.eqb_spec c0 239); [lia|reflexivity].
+Qed.
+
+Lemma nesting_limit_Z : Z.of_nat nesting_limit = c_CJSON_NESTING_LIMIT.
+Proof. unfold nesting_limit. apply Z2Nat.id. unfold c_CJSON_NESTING_LIMIT. lia. Qed.
+
+(** the value of a text, and what [text_l] leaves unconsumed after it *)
+Lemma complete_text_value strtod txt v tail :
+  strtod_rfc strtod -> RFC_text txt v -> jv_ok v -> nonnum_start tail ->
+  exists pre w2, txt = pre ++ w2 /\ ws rfc_ws w2 /\
+    forall extra,
+      value_l strtod (S (length (txt ++ tail) + extra))  0
+        (drop_ws (match starts [239; 187; 191] (txt ++ tail) with Some r => r | None => txt ++ tail end))
+      = Some (tree_of strtod v, w2 ++ tail).
+Proof.
+  intros Hs [bom [w1 [t [w2 [E [Hbom [Hw1 [Hw2 Hv]]]]]]]] Hok Htail.
+  exists (bom ++ w1 ++ t), w2. split; [rewrite E, <- !app_assoc; reflexivity|].
+  split; [exact Hw2|]. intros extra.
+  destruct (value_starts _ t v Hv) as [c [t' [Et Hc]]].
+  assert (El : txt ++ tail = bom ++ w1 ++ c :: (t' ++ w2 ++ tail)).
+  { rewrite E, Et. norm_app. reflexivity. }
+  remember (S (length (txt ++ tail) + extra)) as n eqn:En. rewrite El. rewrite (bom_strip bom w1 c _ Hbom Hw1 Hc).
+  rewrite drop_ws_app by exact Hw1. rewrite drop_ws_start by (apply value_start_gt; exact Hc).
+  change (c :: t' ++ w2 ++ tail) with ((c :: t') ++ w2 ++ tail). rewrite <- Et.
+  apply (complete_value strtod Hs nesting_limit t v Hv Hok).
+  - subst n. rewrite E. rewrite !app_length. lia.
+  - rewrite nesting_limit_Z. lia.
+  - apply nonnum_start_ws; assumption.
+Qed.
+
+(** [require_null_terminated = false]: the text may be followed by anything that cannot extend
+    a final number token; the parse stops right after the value, i.e. before the text's
+    trailing whitespace *)
+Theorem complete_text_open strtod txt v tail :
+  strtod_rfc strtod -> RFC_text txt v -> jv_ok v -> nonnum_start tail ->
+  exists pre w2, txt = pre ++ w2 /\ ws rfc_ws w2 /\
+    text_l strtod (txt ++ tail) false = Some (tree_of strtod v, w2 ++ tail).
+Proof.
+  intros Hs Ht Hok Htail.
+  destruct (complete_text_value strtod txt v tail Hs Ht Hok Htail) as [pre [w2 [E [Hw2 H]]]].
+  exists pre, w2. split; [exact E|]. split; [exact Hw2|].
+  unfold text_l. specialize (H 0%nat). rewrite Nat.add_0_r in H. rewrite H. reflexivity.
+Qed.
+
+(** exact-length buffer *)
+Theorem complete_text_exact strtod txt v :
+  strtod_rfc strtod -> RFC_text txt v -> jv_ok v ->
+  exists pre w2, txt = pre ++ w2 /\ ws rfc_ws w2 /\
+    text_l strtod txt false = Some (tree_of strtod v, w2).
+Proof.
+  intros Hs Ht Hok.
+  destruct (complete_text_open strtod txt v [] Hs Ht Hok I) as [pre [w2 [E [Hw2 H]]]].
+  rewrite !app_nil_r in H. exists pre, w2. auto.
+Qed.
+
+(** zero-terminated buffer, termination required: the parse ends at the zero byte *)
+Theorem complete_text_zero_rnt strtod txt v r :
+  strtod_rfc strtod -> RFC_text txt v -> jv_ok v ->
+  text_l strtod (txt ++ 0 :: r) true = Some (tree_of strtod v, 0 :: r).
+Proof.
+  intros Hs Ht Hok.
+  assert (Htail : nonnum_start (0 :: r)) by (apply nonnum_start_byte; lia).
+  destruct (complete_text_value strtod txt v (0 :: r) Hs Ht Hok Htail) as [pre [w2 [E [Hw2 H]]]].
+  unfold text_l. specialize (H 0%nat). rewrite Nat.add_0_r in H. rewrite H.
+  rewrite drop_ws_nz_app by exact Hw2. reflexivity.
+Qed.
+
+(** zero-terminated buffer, termination not required *)
+Theorem complete_text_zero strtod txt v r :
+  strtod_rfc strtod -> RFC_text txt v -> jv_ok v ->
+  exists pre w2, txt = pre ++ w2 /\ ws rfc_ws w2 /\
+    text_l strtod (txt ++ 0 :: r) false = Some (tree_of strtod v, w2 ++ 0 :: r).
+Proof.
+  intros Hs Ht Hok. apply complete_text_open; try assumption. apply nonnum_start_byte. lia.
+Qed.
+
+(** the tree is the same in all three situations (C02: all entry points produce equal trees) *)
+Theorem complete_text_trees_agree strtod txt v r rnt :
+  strtod_rfc strtod -> RFC_text txt v -> jv_ok v ->
+  option_map fst (text_l strtod txt false) = Some (tree_of strtod v) /\
+  option_map fst (text_l strtod (txt ++ 0 :: r) rnt) = Some (tree_of strtod v).
+Proof.
+  intros Hs Ht Hok. split.
+  - destruct (complete_text_exact strtod txt v Hs Ht Hok) as [pre [w2 [_ [_ H]]]]. rewrite H. reflexivity.
+  - destruct rnt.
+    + rewrite (complete_text_zero_rnt strtod txt v r Hs Ht Hok). reflexivity.
+    + destruct (complete_text_zero strtod txt v r Hs Ht Hok) as [pre [w2 [_ [_ H]]]]. rewrite H. reflexivity.
+Qed.
+
+(** with the side condition [jv_ok] the decoded strings are not cut: the C string IS the
+    denoted byte string *)
+Lemma tree_of_str_exact strtod s : jv_ok (JStr s) ->
+  tree_of strtod (JStr s) = Node c_cJSON_String (Some s) 0 dzero None [].
+Proof. intros H. cbn [tree_of]. rewrite (cstr_nonzero s H). reflexivity. Qed.
+
+(** * The reference strtod satisfies the contract *)
+Definition sign_split (s : bytes) : bool * bytes * nat :=
+  match s with 45 :: r => (true, r, 1%nat) | 43 :: r => (false, r, 1%nat) | _ => (false, s, 0%nat) end.
+
+Definition frac_part (ip : Z) (nint : nat) (s2 : bytes) : Z * nat * bytes * nat :=
+  match s2 with
+  | 46 :: r => let '(m', nf, r') := take_digits r ip 0 in
+               if (nint =? 0)%nat && (nf =? 0)%nat then (ip, 0%nat, s2, 0%nat) else (m', nf, r', 1%nat)
+  | _ => (ip, 0%nat, s2, 0%nat)
+  end.
+
+Definition exp_part (s3 : bytes) : Z * nat :=
+  match s3 with
+  | c :: r =>
+      if (c =? 101) || (c =? 69) then
+        let '(eneg, r1, nes) := sign_split r in
+        let '(ev, ne, _) := take_digits r1 0 0 in
+        if (ne =? 0)%nat then (0, 0%nat)
+        else ((if eneg then - (Z.min ev 100000) else Z.min ev 100000), (1 + nes + ne)%nat)
+      else (0, 0%nat)
+  | [] => (0, 0%nat)
+  end.
+
+Lemma strtod_ref_eq s : strtod_ref s =
+  let '(neg, s1, nsign) := sign_split s in
+  let '(ip, nint, s2) := take_digits s1 0 0 in
+  let '(m, nfrac, s3, ndot) := frac_part ip nint s2 in
+  if (nint + nfrac =? 0)%nat then None
+  else
+    let '(e, nexp) := exp_part s3 in
+    Some (dec_to_dbl_exact neg m (e - Z.of_nat nfrac), (nsign + nint + ndot + nfrac + nexp)%nat).
+Proof. reflexivity. Qed.
+
+Definition nondigit_start (l : bytes) : Prop :=
+  match l with c :: _ => digit c = false | [] => True end.
+
+Lemma take_digits_app : forall ds rest acc n, digits ds -> nondigit_start rest ->
+  exists acc', take_digits (ds ++ rest) acc n = (acc', (n + length ds)%nat, rest).
+Proof.
+  induction ds as [|c ds IH]; intros rest acc n Hd Hr.
+  - exists acc. cbn [app length]. rewrite Nat.add_0_r.
+    destruct rest as [|c r]; [reflexivity|]. cbn [take_digits].
+    cbn [nondigit_start] in Hr. change (is_digit c) with (digit c). rewrite Hr. reflexivity.
+  - unfold digits in Hd. cbn [forallb] in Hd. apply andb_true_iff in Hd as [Hc Hds].
+    cbn [app take_digits]. change (is_digit c) with (digit c). rewrite Hc.
+    destruct (IH rest (10 * acc + (c - 48)) (S n) Hds Hr) as [acc' E].
+    exists acc'. rewrite E. cbn [length]. f_equal. f_equal. lia.
+Qed.
+
+Lemma sign_split_other c r : c <> 45 -> c <> 43 -> sign_split (c :: r) = (false, c :: r, 0%nat).
+Proof.
+  intros H1 H2. unfold sign_split. destruct c as [|p|p]; try reflexivity.
+  do 6 (destruct p as [p|p|]; try reflexivity); congruence.
+Qed.
+
+Lemma exp_part_shape ex : exp_shape ex -> exists e, exp_part ex = (e, length ex).
+Proof.
+  intros [-> | [c [es [d [ed [-> [Hc [Hes [Hd Hed]]]]]]]]]; [exists 0; reflexivity|].
+  assert (Hdd : digits (d :: ed)) by (unfold digits; cbn [forallb]; rewrite Hd; exact Hed).
+  destruct (take_digits_app (d :: ed) [] 0 0 Hdd I) as [ev Ev]. rewrite app_nil_r in Ev.
+  assert (Hsplit : exists eneg, sign_split (es ++ d :: ed) = (eneg, d :: ed, length es)).
+  { destruct Hes as [-> | [-> | ->]]; [|exists false; reflexivity|exists true; reflexivity].
+    exists false. apply digit_iff in Hd. cbn [app length]. apply sign_split_other; lia. }
+  destruct Hsplit as [eneg Es].
+  eexists. unfold exp_part.
+  replace ((c =? 101) || (c =? 69)) with true
+    by (symmetry; apply orb_true_iff; rewrite !Z.eqb_eq; tauto).
+  rewrite Es. rewrite Ev. cbn [length Nat.add Nat.eqb].
+  rewrite app_length. cbn [length]. reflexivity.
+Qed.
+
+Lemma exp_shape_nondigit ex : exp_shape ex -> nondigit_start ex.
+Proof.
+  intros [-> | [c [es [d [ed [-> [Hc _]]]]]]]; [exact I|].
+  cbn [nondigit_start]. destruct (digit c) eqn:E; [|reflexivity]. apply digit_iff in E. lia.
+Qed.
+
+Lemma frac_part_shape ip nint fr ex : frac_shape fr -> exp_shape ex ->
+  exists m nf nd, frac_part ip nint (fr ++ ex) = (m, nf, ex, nd) /\ (nd + nf = length fr)%nat.
+Proof.
+  intros [-> | [d [fd [-> [Hd Hfd]]]]] Hex.
+  - exists ip, 0%nat, 0%nat. split; [|reflexivity]. cbn [app].
+    destruct Hex as [-> | [c [es [d [ed [-> [Hc _]]]]]]]; [reflexivity|].
+    destruct Hc as [-> | ->]; reflexivity.
+  - assert (Hdd : digits (d :: fd)) by (unfold digits; cbn [forallb]; rewrite Hd; exact Hfd).
+    destruct (take_digits_app (d :: fd) ex ip 0 Hdd (exp_shape_nondigit ex Hex)) as [m Em].
+    exists m, (length (d :: fd)), 1%nat. split; [|reflexivity].
+    cbn [app] in *. unfold frac_part. rewrite Em. cbn [length Nat.add Nat.eqb].
+    rewrite andb_false_r. reflexivity.
+Qed.
+
+Lemma frac_exp_nondigit fr ex : frac_shape fr -> exp_shape ex -> nondigit_start (fr ++ ex).
+Proof.
+  intros [-> | [d [fd [-> _]]]] Hex; [exact (exp_shape_nondigit ex Hex)|reflexivity].
+Qed.
+
+Theorem strtod_ref_complete t : rfc_number t = true -> exists d, strtod_ref t = Some (d, length t).
+Proof.
+  intros Hn.
+  destruct (rfc_number_shape t Hn) as [sg [d [ds [fr [ex [-> [Hsg [Hd [Hds [Hfr Hex]]]]]]]]]].
+  assert (Hdd : digits (d :: ds)) by (unfold digits; cbn [forallb]; rewrite Hd; exact Hds).
+  destruct (take_digits_app (d :: ds) (fr ++ ex) 0 0 Hdd (frac_exp_nondigit fr ex Hfr Hex)) as [ip Eip].
+  destruct (frac_part_shape ip (0 + length (d :: ds)) fr ex Hfr Hex) as [m [nf [nd [Ef Hlen]]]].
+  destruct (exp_part_shape ex Hex) as [e Ee].
+  assert (Hsplit : exists neg, sign_split (sg ++ (d :: ds) ++ fr ++ ex) = (neg, (d :: ds) ++ fr ++ ex, length sg)).
+  { destruct Hsg as [-> | ->]; [|exists true; reflexivity].
+    exists false. apply digit_iff in Hd. cbn [app length]. apply sign_split_other; lia. }
+  destruct Hsplit as [neg Es].
+  rewrite strtod_ref_eq. rewrite Es. cbv beta iota. rewrite Eip. cbv beta iota.
+  rewrite Ef. cbv beta iota. rewrite Ee. cbv beta iota.
+  cbn [length Nat.add Nat.eqb].
+  eexists. f_equal. f_equal.
+  rewrite !app_length. cbn [length]. lia.
+Qed.
+
+Theorem strtod_ref_rfc : strtod_rfc strtod_ref.
+Proof. intros t Hn _. apply strtod_ref_complete. exact Hn. Qed.
